@@ -1,6 +1,6 @@
 (* I/O wrapper around the extracted model of C20 (no logic of its own beyond parsing and printing).
    Same output format as the "R " lines of harness/src/bin/c20.rs:
-     p <iface|-> <member|-> <typ> <serial> <sender|-> <reply serial|-> <flags> <destination|-> <body string|-> <pre: stored id hex | none> <draw hex> <secs>
+     p <iface|-> <member|-> <typ> <serial> <sender|-> <reply serial|-> <flags> <destination|-> <body string|-> [<object path|-> <num_fds|->] <pre: stored id hex | none> <draw hex> <secs>
      n <draw> <draw> <draw> <secs>             first call with the disk full (write of the temporary file fails), then two with space
      u <12 bytes hex> <12 bytes hex> <secs>
      g <stored id hex> <draw hex> <secs>       GetMachineId twice on a file system that already holds the id
@@ -46,13 +46,13 @@ let show_written = function [] -> "-" | l -> String.concat "|" (List.map show_re
 let empty_fs : fs = fun _ -> None
 let show_file (f : fs) = match f machine_id_path with Some b -> hex_of_list b | None -> "none"
 
-let make_msg ?(flags = 0) ?(dest = "-") ?(body = "-") iface member typ serial sender rs =
+let make_msg ?(flags = 0) ?(dest = "-") ?(body = "-") ?(obj = "2f78") ?(fds = "-") iface member typ serial sender rs =
   { m_typ = (match typ with "c" -> MCall | "s" -> MSignal | "r" -> MReply | "i" -> MInvalid | _ -> MError);
     m_dh = { dh_interface = opt_of_hex iface; dh_member = opt_of_hex member;
-             dh_object = Some (list_of_hex "2f78"); dh_destination = opt_of_hex dest;
+             dh_object = opt_of_hex obj; dh_destination = opt_of_hex dest;
              dh_serial = (if serial = 0 then None else Some (n_of_int serial)); dh_sender = opt_of_hex sender;
              dh_signature = (if body = "-" then None else Some (list_of_hex "73")); dh_error_name = None;
-             dh_response_serial = (if rs = "-" then None else Some (n_of_int (int_of_string rs))); dh_num_fds = None };
+             dh_response_serial = (if rs = "-" then None else Some (n_of_int (int_of_string rs))); dh_num_fds = (if fds = "-" then None else Some (n_of_int (int_of_string fds))) };
     m_flags = n_of_int flags; m_body = (if body = "-" then [] else [ list_of_hex body ]) }
 
 let handled_str (r, _) = match r with
@@ -78,6 +78,12 @@ let () =
       match String.split_on_char ' ' line with
       | [ "p"; iface; member; typ; serial; sender; rs; flags; dest; body; pre; draw; secs ] ->
           let m = make_msg ~flags:(int_of_string flags) ~dest ~body iface member typ (int_of_string serial) sender rs in
+          let f0 = if pre = "none" then empty_fs else fs_write machine_id_path (list_of_hex pre) empty_fs in
+          let r = handle_peer_message ascii_only (env (int_of_string secs) draw) f0 m in
+          Printf.printf "handled=%s filter=%b written=%s pre=%s post=%s\n" (handled_str r) (filter_peer m.m_dh)
+            (written_of r) pre (show_file (snd r))
+      | [ "p"; iface; member; typ; serial; sender; rs; flags; dest; body; obj; fds; pre; draw; secs ] ->
+          let m = make_msg ~flags:(int_of_string flags) ~dest ~body ~obj ~fds iface member typ (int_of_string serial) sender rs in
           let f0 = if pre = "none" then empty_fs else fs_write machine_id_path (list_of_hex pre) empty_fs in
           let r = handle_peer_message ascii_only (env (int_of_string secs) draw) f0 m in
           Printf.printf "handled=%s filter=%b written=%s pre=%s post=%s\n" (handled_str r) (filter_peer m.m_dh)
